@@ -355,7 +355,7 @@ func genSession(g *vh.Gen, idx int, big bool) (string, string, string) {
 }
 
 func gen(g *vh.Gen) {
-	nsess := g.N(5000, 60000)
+	nsess := g.N(4000, 60000)
 	for i := 0; i < nsess; i++ {
 		big := i%100 == 7 || i%100 == 58
 		fl, init, evs := genSession(g, i, big)
